@@ -30,3 +30,11 @@ add("C15", "property-based testing (Hypothesis) with fault injection against a j
     "Generated-input search over simulated traces (documented launch names, clipped and positive delays, memory launches, linked non-launch calls, missing partners) x include_memory_events x rank selection: the returned rows must equal, as a multiset, (correlation, cpu_duration, gpu_duration, max(0, start - launch end)) over the model's linked launch/activity pairs.",
     "Trusts hv/model/raw.py links; fewer than two profiler steps so loading trims nothing.",
     "DESIGN.md §5 C15")
+add("C06", "property-based testing (Hypothesis) with fault injection against a per-stream gap-classification reference model",
+    "Generated-input search over simulated FIFO-stream traces (missing launches, late first entry, zero-length kernels, same-start kernels) x threshold x stream/rank subsets: reported idle time per category is compared exactly with the model's classified gaps, categories must add up to span minus busy time, ratios are the shares (2 decimals) and add up to 1.",
+    "Trusts hv/model/raw.py links and the gap model in hv/props/c06.py; kernels never overlap within a stream (FIFO simulation); fewer than two profiler steps.",
+    "DESIGN.md §5 C06")
+add("C12", "property-based testing (Hypothesis) against an iteration/trimming reference model (set equality both ways)",
+    "Generated-input search over simulated traces with 0-4 profiler steps, gaps, work before/after the steps, a second thread straddling step boundaries and kernels running in a later step than their launch x include_last_profiler_step: per-row iteration after parse_traces() and the kept id set after load_traces() are compared with the model (nothing dropped, nothing resurrected, no duplicates), get_iterations() recomputed.",
+    "Trusts hv/model/trace.py; both readings accepted for sync records on stream -1; fate of activities without any correlation id left open; same step numbers on all ranks.",
+    "DESIGN.md §5 C12")
